@@ -102,13 +102,26 @@ type roleSlot struct {
 
 // parseSlots runs a parser function (loop bodies once) and classifies every appended parse result.
 func (c *Ctx) parseSlots(fn string, slotOf func(semis, cases int, isFirst bool, path []string) (string, bool)) ([]roleSlot, []string) {
-	fd := c.Func(fn)
-	if fd == nil {
+	root := c.Func(fn)
+	if root == nil {
 		return nil, []string{fn + " not found"}
 	}
+	// the function and the new helpers it was split into are each analysed with the same slot table
+	var all []roleSlot
+	var problems []string
+	for _, fd := range c.withHelpers(root) {
+		s, p := c.parseSlotsOf(fn, fd, slotOf)
+		all = append(all, s...)
+		problems = append(problems, p...)
+	}
+	return all, problems
+}
+
+func (c *Ctx) parseSlotsOf(fn string, fd *ast.FuncDecl, slotOf func(semis, cases int, isFirst bool, path []string) (string, bool)) ([]roleSlot, []string) {
 	patch := c.zeroPatchers()
 	in := newInterp(c)
 	in.NoReturn = func(o types.Object) bool { return c.noReturnFuncs()[o] }
+	in.Inline = c.isNewHelper
 	in.H.Loop = func(in *Interp, st *State, s ast.Stmt) []*State {
 		var body *ast.BlockStmt
 		switch l := s.(type) {
@@ -277,16 +290,36 @@ func ruleHndLocalBase(c *Ctx, r *R) {
 		return ok && id.Name == recv
 	}
 	// an index is fine when it mentions len(v.stack) or baseN
-	mentions := func(e ast.Expr) (top, base bool) {
+	var mentions func(e ast.Expr) (top, base bool)
+	depth := 0
+	mentions = func(e ast.Expr) (top, base bool) {
 		ast.Inspect(e, func(n ast.Node) bool {
 			switch x := n.(type) {
-			case *ast.CallExpr:
-				if c.CalleeName(x) == "builtin.len" && len(x.Args) == 1 && isStack(x.Args[0]) {
-					top = true
-				}
 			case *ast.Ident:
 				if x.Name == "baseN" {
 					base = true
+					return true
+				}
+				// a local that was assigned a stack-relative expression
+				if v, ok := c.Obj(x).(*types.Var); ok && !v.IsField() && depth < 3 {
+					ast.Inspect(ex.Fn.Body, func(k ast.Node) bool {
+						if as, ok := k.(*ast.AssignStmt); ok {
+							for i, l := range as.Lhs {
+								if lid, ok := l.(*ast.Ident); ok && c.Info.Defs[lid] == types.Object(v) && i < len(as.Rhs) {
+									depth++
+									t2, b2 := mentions(as.Rhs[i])
+									depth--
+									top, base = top || t2, base || b2
+								}
+							}
+						}
+						return true
+					})
+				}
+				return true
+			case *ast.CallExpr:
+				if c.CalleeName(x) == "builtin.len" && len(x.Args) == 1 && isStack(x.Args[0]) {
+					top = true
 				}
 			case *ast.SelectorExpr:
 				if x.Sel.Name == "BaseN" {
